@@ -577,6 +577,40 @@ def wellformed(gates):
     return True
 
 
+# hypotheses of the Lean theorems C13_full / qasm_asis_resolves, computed independently of the model
+BASE_NAMES = ("I", "X", "Y", "Z", "H", "S", "T", "P", "SWAP")
+
+
+def py_ident(t):
+    return len(t) > 0 and all((ch.isascii() and ch.isalnum()) or ch in "_." for ch in t)
+
+
+def py_well_named(desc):
+    """circuit / qubit names identifier-shaped and distinct, no name equal to the fallback q<i> of an unnamed qubit"""
+    keys = [k for k, _ in desc["qmap"]]
+    if not py_ident(desc["name"]) or not all(py_ident(k) for k in keys) or len(set(keys)) != len(keys):
+        return False
+    named = {v for _, v in desc["qmap"]}
+    return not any(i not in named and f"q{i}" in keys for i in range(desc["n"]))
+
+
+def py_domain(desc):
+    gates, n = desc["gates"], desc["n"]
+    return dict(
+        wellNamed=py_well_named(desc),
+        paramsPlain=all(d.get("p") is None or not any(ch in " \n" for ch in d["p"]) for d in gates),
+        qasmExportable=all(d["c"] != "MCtrl" or d["g"] in BASE_NAMES for d in gates),
+        wf=wellformed(gates) and all(len(d["w"]) == gate_arity(d) and all(0 <= w < n for w in d["w"]) for d in gates),
+    )
+
+
+def gate_arity(d):
+    c = d["c"]
+    if c in ("MCX", "MCtrl"):
+        return d["n"] + 1
+    return {"Swap": 2, "CX": 2, "CZ": 2, "CP": 2, "CCX": 3, "Barrier": 0, "NopGate": 0}.get(c, 1)
+
+
 def trig_formals(desc):
     return [v for _, v in desc["qmap"]] != list(range(desc["n"]))
 
@@ -835,7 +869,9 @@ def observe(ctx, res, case, bucket, lean_parse=True):
                 parse_reqs.append(dict(op="c13.parse", text=obs["text"]))
                 parse_idx.append(len(observations) - 1)
             k += 1
-    return dict(case=case, bucket=bucket, desc=desc, reqs=reqs + parse_reqs, nreq=len(reqs), parse_idx=parse_idx, observations=observations)
+    dom_req = dict(op="c13.domain", name=desc["name"], n=desc["n"], qmap=desc["qmap"], gates=desc["gates"],
+                   fvals=fvals_of(desc["gates"]), quirks=quirks)
+    return dict(case=case, bucket=bucket, desc=desc, reqs=reqs + parse_reqs + [dom_req], nreq=len(reqs), parse_idx=parse_idx, observations=observations)
 
 
 def judge(ctx, res, rec, replies):
@@ -891,6 +927,34 @@ def judge(ctx, res, rec, replies):
                 lo = rep.get("ops")
                 if lo is None or [(o["base"], o["nctrl"], tuple(o["w"]), o["p"]) for o in lo] != po:
                     res.disagree(sub, "Lean reader and Python reader resolve the body differently", code=[list(map(str, x)) for x in po], model=lo)
+
+
+    # the hypotheses of C13_full / qasm_asis_resolves: model's predicates vs the harness' own, and on
+    # the real code what the theorems conclude from them (export returns, one distinct
+    # identifier-shaped formal per qubit, every line resolves)
+    dom = py_domain(desc)
+    sub = dict(case=case, domain=True)
+    in_domain = all(dom.values())
+    res.count(sub, nontrivial=in_domain and len(nonnop(desc["gates"])) >= 2, bucket=f"{bucket}/domain/{'in' if in_domain else 'out'}")
+    if replies is not None:
+        rep = replies[nreq + len(parse_idx)]
+        if "driver_error" in rep:
+            res.disagree(sub, "driver error: " + rep["driver_error"], code=dom, model=rep)
+        elif {k: rep.get(k) for k in dom} != dom:
+            res.disagree(sub, "model's wellNamed / paramsPlain / qasmExportable / gateWF differ from the harness' own", code=dom, model=rep)
+        elif in_domain and not (rep.get("readable") and rep.get("nodup")):
+            res.disagree(sub, "in the theorem's domain but the model's export is not readable / its formals not distinct", code=dom, model=rep)
+    if in_domain:
+        for fw, ver, mode, obs, fails in observations:
+            if fw != "qasm":
+                continue
+            P = obs.get("parsed")
+            ok = P is not None and len(set(P["formals"])) == desc["n"] == len(P["formals"]) and all(py_ident(f) for f in P["formals"]) \
+                and not isinstance(qasm_ops(P), str)
+            if not ok:
+                res.violation(dict(case=case, fw=fw, version=ver, mode=mode, domain=True),
+                              "circuit satisfies wellNamed / paramsPlain / qasmExportable but the real QASM export raises, is unreadable, or its formals are not one distinct identifier per qubit",
+                              code=strip_obs(obs), expected=dict(n=desc["n"], domain=dom))
 
 
 def check_circuits(ctx, res, cases, chunk=150):
@@ -1000,10 +1064,14 @@ def systematic_cases():
         "missing-used": [["a", 0], ["c", 2]],
         "rebound": [["a", 2], ["b", 1], ["r", 0]],
         "empty": [],
+        # outside `wellNamed` (not identifier-shaped) although the lenient reader still copes
+        "dashed": [["a-b", 0], ["b", 1], ["c", 2]],
+        "fallback-noclash": [["q2", 0], ["q0", 2]],
     }
     for k, m in maps.items():
         out.append((dict(label=f"sys-map-{k}", name="fun", n=3, qmap=m, gates=base), "systematic-map"))
     out.append((dict(label="sys-map-missing-unused", name="fun", n=3, qmap=[["a", 0], ["c", 2]], gates=[mk("CX", [0, 2])]), "systematic-map"))
+    out.append((dict(label="sys-name-dashed", name="my-gate", n=3, qmap=[["a", 0], ["b", 1], ["c", 2]], gates=base), "systematic-map"))
     out.append((dict(label="sys-empty", name="qc", n=2, qmap=default_map(2), gates=[]), "systematic"))
     out.append((dict(label="sys-name-clash", name="x", n=1, qmap=default_map(1), gates=[mk("X", [0])]), "systematic"))
     return out
